@@ -214,13 +214,13 @@ PROPS['C19'] = dict(
     not_covered=['interleavings themselves', 'state inside dependencies (nom-packrat, nom-recursive, nom-tracable)', 'concurrent modification of the files being read'],
 )
 KANI = dict(module='vx.kanieng', tier='thorough')
-PROPS['C03']['engines'] = [KANI, dict(module='vx.boundeng')]
-PROPS['C18']['engines'] = [dict(module='gvc.engine', args=dict(analyses=('pptotal', 'assumed'))), REPLAY]
-PROPS['C05']['engines'] = [dict(module='vx.boundeng'), dict(module='gvc.engine', args=dict(analyses=('shadow', 'kwsites', 'assumed')))]
-PROPS['C11']['engines'] = [dict(module='gvc.engine', args=dict(analyses=('shadow', 'kwsites', 'assumed')))]
-PROPS['C10']['engines'] = [dict(module='gvc.engine', args=dict(analyses=('assumed',)))]
+PROPS['C03']['engines'] = [KANI, dict(module='vx.boundeng'), dict(module='gvc.engine', args=dict(analyses=('faithful',)))]
+PROPS['C18']['engines'] = [dict(module='gvc.engine', args=dict(analyses=('pptotal', 'assumed', 'faithful'))), REPLAY]
+PROPS['C05']['engines'] = [dict(module='vx.boundeng'), dict(module='gvc.engine', args=dict(analyses=('shadow', 'kwsites', 'assumed', 'faithful')))]
+PROPS['C11']['engines'] = [dict(module='gvc.engine', args=dict(analyses=('shadow', 'kwsites', 'assumed', 'faithful')))]
+PROPS['C10']['engines'] = [dict(module='gvc.engine', args=dict(analyses=('assumed', 'faithful')))]
 PROPS['C09']['engines'] = [dict(module='gvc.engine', args=dict(analyses=('assumed',)))]
-PROPS['C04']['engines'] = [dict(module='gvc.engine', args=dict(analyses=('frame', 'assumed', 'kwsites', 'pptotal'))), REPLAY]
+PROPS['C04']['engines'] = [dict(module='gvc.engine', args=dict(analyses=('frame', 'assumed', 'kwsites', 'pptotal', 'faithful'))), REPLAY]
 PROPS['C06']['engines'] = [dict(module='gvc.engine', args=dict(analyses=('pptotal', 'faithful', 'shadow', 'assumed'))), dict(module='vx.boundeng'), REPLAY]
 
 # ---- premise closure -----------------------------------------------------------------------------------------------------
